@@ -222,7 +222,7 @@ def gen_cases(rng, n, tier):
                 cases.append({"kind": "point_along_no_segment" if not segs else "point_along_zero_length", "v": pts,
                               "closed": closed, "fs": fs, "single": len(fs) == 1 and rng.random() < 0.5})
                 continue
-            if rng.random() < 0.3:
+            if rng.random() < 0.45:
                 # boundary stream: every boundary fraction {0, 1, exact vertex positions} x {leading / inner / trailing
                 # zero-length segment} x open / closed, rational lengths (so that f * L hits the vertices exactly or
                 # within one rounding; the result is continuous in f, so either side is the same point)
